@@ -33,6 +33,7 @@ def run(ctx, rep):
         return
     rep.fn(p)
     b = fx.bodies[p]
+    MF = A.mapping_field(fx)
     import sym as S
     from sym import mk_field
     sy = S.Sym(fx, inline_depth=10)
@@ -50,7 +51,7 @@ def run(ctx, rep):
                   expected="uuid() is exactly one Uuid::new_v5(NS, data), unconditionally and without side effects")
         if is_v5:
             ns, data = v[2]
-            rep.check("C18.1", "C18.1/data-is-source", data == mk_field(("in", "self"), "source"), loc=F.short_file(b["sp"]), found="data argument = %s" % S.tstr(data)[:200],
+            rep.check("C18.1", "C18.1/data-is-source", data == mk_field(("in", "self"), MF), loc=F.short_file(b["sp"]), found="data argument = %s" % S.tstr(data)[:200],
                       expected="data = self.source (the raw bytes, no transformation)")
 
             def is_domain(t):
@@ -90,7 +91,7 @@ def run(ctx, rep):
 
             def g(t):
                 if t[0] == "adt" and t[1] == "ProguardMapping":
-                    srcs.append(dict(t[3]).get("source"))
+                    srcs.append(dict(t[3]).get(MF))
                 return None
             import fc
             fc.rewrite(v, g)
@@ -99,9 +100,9 @@ def run(ctx, rep):
                     h = None
                 elif sv[0] == "in" and sv[1] in params and not st.effects:
                     h = "the constructor argument itself"
-                elif sv == mk_field(("in", "self"), "source") or (sv[0] == "call" and sv[1].endswith("Clone::clone") and sv[2] == (mk_field(("in", "self"), "source"),)):
+                elif sv == mk_field(("in", "self"), MF) or (sv[0] == "call" and sv[1].endswith("Clone::clone") and sv[2] == (mk_field(("in", "self"), MF),)):
                     h = "self.source (a shared slice reference)"
-                elif sv[0] == "call" and sv[1] == "std::ops::Index::index" and sv[2][0] == mk_field(("in", "self"), "source") and sv[2][1][0] == "in" and sv[2][1][1] in params:
+                elif sv[0] == "call" and sv[1] == "std::ops::Index::index" and sv[2][0] == mk_field(("in", "self"), MF) and sv[2][1][0] == "in" and sv[2][1][1] in params:
                     h = "sub-slice of self.source by the caller's range"
                 elif sv[0] == "default" or sv == ("array", ()) or (sv[0] == "lit" and sv[1] == "bytes" and len(sv[2]) == 0):
                     h = "the empty slice"
@@ -116,7 +117,7 @@ def run(ctx, rep):
     AR.check_mapping_wiring(fx, rep, "C18.api")
     adt_ = fx.adt("proguard::mapping::ProguardMapping")
     flds = [f_["name"] for f_ in adt_["variants"][0]["fields"]] if adt_ else []
-    rep.check("C18.1", "C18.1/single-field", flds == ["source"], loc=F.short_file(adt_["sp"]) if adt_ else "", found="ProguardMapping fields: %s" % flds,
+    rep.check("C18.1", "C18.1/single-field", len(flds) == 1, loc=F.short_file(adt_["sp"]) if adt_ else "", found="ProguardMapping fields: %s" % flds,
               expected="the mapping is its byte slice and nothing else (a window/offset/cache field would make `the bytes` ambiguous)", nontrivial=False)
     # no assignment to .source anywhere
     writes = []
@@ -126,7 +127,7 @@ def run(ctx, rep):
         for n in F.walk(bb["body"]):
             if n.get("k") in ("Assign", "AssignOp"):
                 l = F.strip(n["l"])
-                if l.get("k") == "Field" and l["name"] == "source" and "ProguardMapping" in l.get("base_ty", ""):
+                if l.get("k") == "Field" and l["name"] == MF and "ProguardMapping" in l.get("base_ty", ""):
                     writes.append(F.loc(n))
     rep.check("C18.1", "C18.1/no-source-mutation", not writes, found=writes or "no assignment to ProguardMapping.source", expected="source is write-once", nontrivial=False)
     # ambient scan over everything reachable from uuid()
